@@ -155,6 +155,15 @@ class HugeArg:
         raise struct.error("'i' format requires -2147483648 <= number <= 2147483647")
 
 
+class BigArg:
+    """An argument whose pickle is `n` bytes long (fills small pipes)."""
+    def __init__(self, n):
+        self.n = n
+
+    def __reduce__(self):
+        return (len, (b"x" * self.n,))
+
+
 class SlowArg:
     def __init__(self, d):
         self.d = d
